@@ -10,6 +10,7 @@
 #include <amgcl/adapter/crs_tuple.hpp>
 #include <amgcl/adapter/reorder.hpp>
 #include <amgcl/adapter/scaled_problem.hpp>
+#include <amgcl/adapter/zero_copy.hpp>
 #include <amgcl/make_solver.hpp>
 #include <amgcl/amg.hpp>
 #include <amgcl/coarsening/smoothed_aggregation.hpp>
@@ -180,12 +181,44 @@ static void mode_solve(uint64_t seed, int reps) {
     }
 }
 
+// shared internal CRS: a solver built on std::shared_ptr<crs> obtained from zero_copy() uses the user's arrays in
+// place (no copy, no sort); it must act like the one built from a copy, and the arrays (with canaries) stay intact
+static void mode_shared(uint64_t seed, int reps) {
+    vr::rng g(seed + 919);
+    typedef amg<B, coarsening::smoothed_aggregation, relaxation::spai0> AMG;
+    typedef make_solver<AMG, solver::cg<B>> Solver;
+    for (int r = 0; r < reps; ++r) {
+        int n = g.range(30, 200);
+        auto A = vr::random_mmatrix(g, n, 3.0 / n, 4, 1);
+        arrays a = to_arrays(*A, 0);
+        const int G = 16;
+        std::vector<ptrdiff_t> gp(a.ptr.size() + 2 * G, 0x5A5A), gc(a.col.size() + 2 * G, 0x5A5A); std::vector<double> gv(a.val.size() + 2 * G, 90.5);
+        std::copy(a.ptr.begin(), a.ptr.end(), gp.begin() + G); std::copy(a.col.begin(), a.col.end(), gc.begin() + G); std::copy(a.val.begin(), a.val.end(), gv.begin() + G);
+        std::vector<ptrdiff_t> sp(gp), sc(gc); std::vector<double> sv(gv);
+        std::vector<double> f(n), x1(n, 0.0), x2(n, 0.0); for (int i = 0; i < n; ++i) f[i] = g.range(-5, 5);
+        vr::obj o; o.str("k", "shared").str("cls", "make_solver<amg,cg> on shared_ptr<crs> from zero_copy").i("n", n);
+        try {
+            Solver::params prm; prm.precond.coarse_enough = 10;
+            size_t it1, it2; double e1, e2;
+            {
+                auto Z = adapter::zero_copy((size_t)n, gp.data() + G, gc.data() + G, gv.data() + G);
+                bool ident = Z->ptr == gp.data() + G && Z->col == gc.data() + G && Z->val == gv.data() + G && !Z->own_data;
+                Solver s(Z, prm); std::tie(it1, e1) = s(f, x1);
+                o.b("ident", ident).b("system_matrix_is_users", (const void*)s.system_matrix().val == (const void*)(gv.data() + G));
+            }
+            { Solver s(std::tie(a.n, a.ptr, a.col, a.val), prm); std::tie(it2, e2) = s(f, x2); }
+            o.b("same", it1 == it2 && std::memcmp(x1.data(), x2.data(), n * sizeof(double)) == 0).b("canary", gp == sp && gc == sc && gv == sv);
+        } catch (const std::exception &e) { o.str("exc", e.what()); }
+        vr::emit(o.done());
+    }
+}
+
 int main(int argc, char **argv) {
     vr::install_terminate();
     std::string mode = argc > 1 ? argv[1] : "precond";
     uint64_t seed = vr::env_seed(); bool th = vr::thorough();
     if (mode == "precond") mode_precond(seed, vr::env_int("VERIF_REPS", th ? 40 : 8));
-    else if (mode == "solve") mode_solve(seed, vr::env_int("VERIF_REPS", th ? 60 : 12));
+    else if (mode == "solve") { mode_solve(seed, vr::env_int("VERIF_REPS", th ? 60 : 12)); mode_shared(seed, th ? 30 : 8); }
     vr::obj o; o.str("e", "End"); vr::emit(o.done());
     return 0;
 }
